@@ -271,4 +271,14 @@ func init() {
 	})
 }
 
+func init() {
+	replayDrivers = append(replayDrivers, replayDriver{
+		match: func(n string) bool { return strings.Contains(n, "VIPPollCheckHandler#updateAuthCookieAuthlevel.C05.own-factor") },
+		run: func(r *Report, o *Obligation, sr *SolveResult) ReplayResult {
+			out, conf := goReplay(r, "cmd/keymasterd", "keymasterd_replay_test.go", "TestVerifReplayVIPPollOtherUser", map[string]string{})
+			return ReplayResult{Confirmed: conf, Summary: replaySummary(out), Output: truncate(out, 4000), Driver: "TestVerifReplayVIPPollOtherUser (scenario of the model: stored transaction user != session user)"}
+		},
+	})
+}
+
 var intRe = regexp.MustCompile(`\(?-?[0-9]+\)?`)
